@@ -476,9 +476,6 @@ func (c *Ctx) evalIndex(e *ast.IndexExpr) Value {
 		return v
 	case KMap:
 		v := Scalar(Ite(Select(base.Has, idx.S), Select(base.Arr, idx.S), zeroOfSort(sortOfArrElem(base.Arr))), elemTypeOrNil(base.T))
-		if c.spec {
-			v.S = Select(base.Arr, idx.S)
-		}
 		x.valueFacts(v)
 		return v
 	}
